@@ -2,9 +2,9 @@
 SPECIFICATION Spec
 CONSTANTS
   MaxDepth = 3
-  DsNames = {"R180", "M360", "E360", "ZIG", "IRR", "RPT", "F2D", "BADS"}
-  StartForms = {"fresh", "imported", "saved", "sparse"}
-  EmitMode = 0
+  DsNames = {"R180", "F2D", "E360"}
+  StartForms = {"imported", "saved", "cached"}
+  EmitMode = 3
   BUG_SINOHIST = TRUE
   BUG_LOAD360 = TRUE
   BUG_YSTEP = TRUE
@@ -14,11 +14,7 @@ CONSTANTS
   BUG_STALEBINS = TRUE
   BUG_COMPARE = TRUE
 INVARIANT TypeOK
-INVARIANT Partition
-INVARIANT RoundTripLoads
-INVARIANT RoundTripPersist
-INVARIANT RoundTripDerived
-INVARIANT LoadIdempotent
+INVARIANT RoundTripPinned
 INVARIANT CacheNoMix
 PROPERTY PathsKept
 PROPERTY MonitorResets
